@@ -6,7 +6,7 @@ package crashmonitor
 // Engine E3 over a traceback grammar: (A) well-formed tracebacks generated
 // from PC lists (the expected name is known by construction), (B) every
 // single substitution of a free-text slot, (C) all sequences of up to 5 (6)
-// lines over 22 line kinds (totality, shape and no-leak oracle), (D) real
+// lines over 25 line kinds (totality, shape and no-leak oracle), (D) real
 // crashing children of this very executable.
 
 import (
@@ -226,7 +226,7 @@ func TestVerifC14(t *testing.T) {
 	p := vrep.Env()
 	res := vrep.New("C14", p)
 	defer res.Guard()
-	res.Rule = "E3: (A) well-formed tracebacks for every PC sequence of length 0-3 over a pool of 6 real PCs (method, generic, inlined, plain) + 0, 1, 2^64-1, x sentinel offsets x sigpanic positions x missing-pc frames, and 1-20 frame repetitions: name must equal the encoding of the PCs by construction; (B) every single substitution of each free-text slot by 4 alternatives incl. frame-like and sentinel-like text: name unchanged or error; (C) every sequence of up to 5 (thorough 6) lines over 22 line kinds: total, well-shaped, no input text in the output; (D) 7 real crashing children of this executable (nil dereference, panic, inlined frame, recursion 40 and 150 deep, other goroutine, locked thread)"
+	res.Rule = "E3: (A) well-formed tracebacks for every PC sequence of length 0-3 over a pool of 6 real PCs (method, generic, inlined, plain) + 0, 1, 2^64-1, x sentinel offsets x sigpanic positions x missing-pc frames, and 1-20 frame repetitions: name must equal the encoding of the PCs by construction; (B) every single substitution of each free-text slot by 4 alternatives incl. frame-like and sentinel-like text: name unchanged or error; (C) every sequence of up to 5 (thorough 6) lines over 25 line kinds: total, well-shaped, no input text in the output; (D) 7 real crashing children of this executable (nil dereference, panic, inlined frame, recursion 40 and 150 deep, other goroutine, locked thread)"
 	res.Assumptions = []string{"PCs come from functions of the harness binary (method, generic instantiation, inlined callee)", "the reference for (A) is the generator's own PC list, encoded by counter.EncodeStack (whose faithfulness is C15's subject)"}
 	pool := zzvPCPool()
 	odd := []uintptr{0, 1, ^uintptr(0)}
@@ -438,6 +438,7 @@ func TestVerifC14(t *testing.T) {
 		"PII.f(...)", "PIIpkg.(*T).m(0x1, {0x2})", "PIIpkg.F[...](...)", "runtime.sigpanic()", "runtime.sigpanic", "PII text without paren",
 		"\t/PII/f.go:1 +0x1 sp=0x1 fp=0x2 pc=0x" + pc0, "\t/PII/f.go:1 +0x1", "\t/PII/f.go:1 pc=0xzz", "\t/PII/f.go:1 pc=0x" + pc0 + " PIItrailing", "\t/PII/f.go:1 pc=0xffffffffffffffff", "\t/PII/f.go:1 pc=0x0",
 		"PII line with\r",
+		"(*PIIT).m(0x1)", "(", // symbol-like lines that begin with a parenthesis
 	}
 	maxLen := 4
 	if p.Thorough() {
